@@ -452,6 +452,10 @@ func (c *Coordinator) assignNoScrapingTargets(
 			assignNoScrapingTargetsTotal.WithLabelValues().Inc()
 		} else {
 			// no shard avaliable
+			if tarSp.isZero() {
+				// a target without any series still needs a shard with room
+				tarSp.processSpace = 1
+			}
 			needSp.add(tarSp)
 		}
 	}
